@@ -141,7 +141,7 @@ def check_query(ctx, run: Run, mirror, q, rng, trace):
     ctx.count("checked_" + q)
     if q == "current_time":
         got = d.current_time()
-        if got != now or not isinstance(got, int):
+        if got != now:
             bad("value", got, now)
     elif q == "raw_ready_operations":
         got = d.raw_ready_operations()
@@ -217,9 +217,9 @@ def check_query(ctx, run: Run, mirror, q, rng, trace):
         else:
             try:
                 got = d.next_operation(j)
-                bad(f"finished job {j}", "returned " + repr(got), "ValidationError")
-            except ValidationError:
-                pass
+                bad(f"finished job {j}", "returned " + repr(got), "an exception")
+            except Exception:
+                pass    # which exception class is not part of the property
     elif q == "earliest_start_time":
         # any operation (also not-ready / scheduled ones): max(min machine free, job free)
         o = rng.choice(r.ready()) if r.ready() and rng.random() < 0.5 else rng.randrange(r.num_ops)
